@@ -1256,6 +1256,17 @@ def transform(fn, proceed, to_instrument=True, set_conformer=True):
             f"transform() only works on functions defined with def (got {fn})"
         )
     tree.decorator_list = []
+    # Default values belong to the scope where the function was defined and
+    # were evaluated when it was: do not evaluate them again (side effects,
+    # names of the enclosing function), reuse the original objects below
+    tree.args.defaults = [
+        ast.copy_location(ast.Constant(value=None), d)
+        for d in tree.args.defaults
+    ]
+    tree.args.kw_defaults = [
+        d and ast.copy_location(ast.Constant(value=None), d)
+        for d in tree.args.kw_defaults
+    ]
 
     fnsym = _gensym()
     glb = fn.__globals__
@@ -1381,6 +1392,8 @@ def transform(fn, proceed, to_instrument=True, set_conformer=True):
     else:
         actual_fn = glb[fname]
 
+    actual_fn.__defaults__ = fn.__defaults__
+    actual_fn.__kwdefaults__ = fn.__kwdefaults__
     glb[fnsym] = actual_fn
 
     # However, we don't want to change the existing mapping of fn
